@@ -119,9 +119,10 @@ def run(tier, seed):
             bf = MM.BFGS(d, m0.copy(), g0.copy(), Minv=Minv0.copy())
         nops = rnd.randint(1, 12)
         ops, obs, snap_ok = [], [], True
-        pieces = [f"c03.bfgs {mhex(Minv0)} {vhex(m0)} {vhex(g0)} {nops}"]
+        pieces = []
         last_accept = None
         had_update_then_reject = False
+        had_refused = False
         pending_update = False
         problems = []
 
@@ -136,6 +137,33 @@ def run(tier, seed):
         last_accept = public_state()
         for k in range(nops):
             kind = rnd.choice(["U", "U", "A", "R", "O"])
+            if kind == "U" and d >= 2 and rnd.random() < 0.3:
+                # an update the library's Cholesky is likely to refuse: curvature s.y tiny but positive with huge |s|, |y|
+                # (the exact BFGS formula keeps the metric positive definite; in floating point the result is rounding noise)
+                sv = np.array([[rnd.gauss(0, 1)] for _ in range(d)]) * 1e3
+                yv = np.array([[rnd.gauss(0, 1)] for _ in range(d)]) * 1e3
+                yv = yv - (((sv.T @ yv).item() - 1e-4) / (sv.T @ sv).item()) * sv
+                m = np.asarray(bf.m, dtype=float) + sv
+                g = np.asarray(bf.g, dtype=float) + yv
+                p = np.array([[rnd.gauss(0, 1)] for _ in range(d)])
+                before_ok = bf.succesful_updates_current
+                before_state = public_state()
+                with quiet(), np.errstate(all="ignore"):
+                    bf.kinetic_energy_gradient(p.copy(), m.copy(), g.copy())
+                if bf.succesful_updates_current != before_ok:
+                    # the factorisation went through on rounding noise: nothing meaningful can be compared after this point
+                    sb.count("extreme update factorised (history cut)")
+                    break
+                pieces.append(f"X {vhex(m)} {vhex(g)}")
+                ops.append(("update-refused", m.ravel().tolist(), g.ravel().tolist()))
+                had_refused = True
+                Mi, F = public_state()
+                obs.append((k, Mi, F))
+                if not (np.array_equal(Mi, before_state[0]) and np.array_equal(F, before_state[1])):
+                    problems.append((k, "an update refused by the factorisation changed the metric or the momentum factor"))
+                if not np.allclose(F @ F.T @ Mi, np.eye(d), rtol=0, atol=1e-6):
+                    problems.append((k, "momentum factor inconsistent with the metric: F Fᵀ M⁻¹ != I"))
+                continue
             if kind == "U":
                 m = np.array([[rnd.gauss(0, 1)] for _ in range(d)])
                 noise = rnd.choice([0.0, 0.0, 0.3, 3.0])
@@ -193,11 +221,13 @@ def run(tier, seed):
         sb.count(f"history_len<={4 * ((nops + 3) // 4)}")
         if had_update_then_reject:
             sb.count("update then reject")
+        if had_refused:
+            sb.count("refused update in the history")
         if problems:
             k0, what = problems[0]
             findings.append(Finding("C03", f"BFGS after op {k0} ({ops[k0][0]}): {what}", {"kind": "bfgs", "problem": what[:40]},
                                     {"oracle": "bfgs", "stimulus": stim, "problems": problems}))
-        reqs.append(" ".join(pieces))
+        reqs.append(" ".join([f"c03.bfgs {mhex(Minv0)} {vhex(m0)} {vhex(g0)} {len(pieces)}"] + pieces))
         metas.append((stim, obs, d))
     answers = lean_batch(reqs)
     for (stim, obs, d), ans in zip(metas, answers):
